@@ -7,7 +7,7 @@
 use crate::corpus;
 use crate::fw::{known, CaseResult, Cx, Ev, Fail};
 use crate::gen::version as gv;
-use crate::oracle::dewey::{self as od, Weight, OPS};
+use crate::oracle::dewey::{self as od, Op, Weight, OPS};
 use crate::oracle::pattern as op_;
 use crate::rng::hash_strs;
 use pkgsrc::{Dewey, Pattern};
@@ -20,6 +20,8 @@ struct Compiled {
     b: String,
     pats: Vec<Pattern>,
     dews: Vec<Dewey>,
+    /// Ranges whose two ends are B and an equal-valued respelling of B.
+    ranges: Vec<(Op, Op, String, Pattern)>,
 }
 
 fn compile(b: &str) -> Result<Compiled, Fail> {
@@ -36,7 +38,14 @@ fn compile(b: &str) -> Result<Compiled, Fail> {
                 .map_err(|e| Fail::from(format!("Dewey::new({text:?}) failed: {e}")))?,
         );
     }
-    Ok(Compiled { b: b.to_string(), pats, dews })
+    let mut ranges = vec![];
+    let b2 = format!("{b}.0");
+    for (lo, hi) in [(Op::Ge, Op::Le), (Op::Gt, Op::Le), (Op::Ge, Op::Lt)] {
+        let text = format!("p{}{b}{}{b2}", lo.text(), hi.text());
+        let p = Pattern::new(&text).map_err(|e| Fail::from(format!("Pattern::new({text:?}) failed: {e}")))?;
+        ranges.push((lo, hi, text, p));
+    }
+    Ok(Compiled { b: b.to_string(), pats, dews, ranges })
 }
 
 /// Observe all four operators (through Pattern and Dewey) and best_match for
@@ -87,6 +96,25 @@ fn check_pair(
         }
         if k == 0 {
             first_cmp = Some(want.cmp);
+        }
+    }
+    // ranges between B and its respelling B.0
+    let b2 = format!("{b}.0");
+    for (lo, hi, text, p) in &c.ranges {
+        let (w1, w2) = (od::satisfies(a, *lo, b), od::satisfies(a, *hi, &b2));
+        let got = p.matches(&name);
+        ev.eval();
+        ev.count("range/equal-ended");
+        let want = w1.rank && w2.rank;
+        if got != want {
+            let msg = format!("{text} on {name}: observed {got}, dewey rule says {want}");
+            if got == (w1.ascii && w2.ascii) {
+                if soft.is_none() {
+                    soft = Some(known(K1, msg));
+                }
+            } else {
+                return Err(msg.into());
+            }
         }
     }
     let cmp = first_cmp.unwrap();
